@@ -174,7 +174,7 @@ class Mon:
                        check="unknown_alias", **info)
             return
         if c.exc is not None:
-            if isinstance(c.exc, ValueError) and "Cannot find subclass" in str(c.exc):
+            if isinstance(c.exc, ValueError) and str(c.exc) == "Cannot find subclass with alias '%s'" % (alias,):  # (not a nested lookup's failure)
                 self.v("%s.from_alias(%r) found nothing; %s has this alias" % (root.__name__, alias, want.__name__), check="resolve", want=want.__name__, **info)
             else:
                 self.rec.count("from_alias_constructor_raised")
@@ -484,7 +484,10 @@ def explicit_twin(cfg):
     from pydrobert.speech import scales as S, filters as F, compute as C
 
     SC = {"mel": S.MelScaling, "bark": S.BarkScaling, "linear": S.LinearScaling, "octave": S.OctaveScaling}
-    BK = {"tri": F.TriangularOverlappingFilterBank, "fbank": F.Fbank, "gabor": F.GaborFilterBank, "gammatone": F.ComplexGammatoneFilterBank}
+    from .. import userbank
+
+    BK = {"tri": F.TriangularOverlappingFilterBank, "fbank": F.Fbank, "gabor": F.GaborFilterBank, "gammatone": F.ComplexGammatoneFilterBank,
+          "vfrealcos": userbank.RealCosineBank}  # a bank defined outside the library resolves through the same factory
     WN = {"hann": F.HannWindow, "hamming": F.HammingWindow, "bartlett": F.BartlettWindow, "blackman": F.BlackmanWindow, "gamma": F.GammaWindow}
 
     def nm(d):
@@ -548,6 +551,7 @@ def vary(cfg, rng):
 
 def tree_part(mon, rec, rng, idx, seed):
     from pydrobert.speech import alias as A, compute as C
+    from .. import userbank  # noqa: F401  (registers the user-defined bank's alias)
 
     if idx % 3 == 2:
         from .C03 import make_cfg as si_make
